@@ -8,6 +8,7 @@ harness/c12.go (oracle family `fmt`); string respelling, number canonicalisation
 validated on the implementation by the harness predicates (reordering is proved in slice C13).
 -/
 import JsonV.Lemmas.FormatCompact
+import JsonV.Lemmas.FormatDepth
 
 namespace JsonV.Props.C12
 open JsonV JsonV.Fmt
@@ -121,6 +122,36 @@ theorem format_fixed_when_formatted (o : WsOpts) (ho : o.Blank) (ts : List Tok) 
 theorem compact_fixed_when_compact (b : Bytes) (ts : List Tok) (h : WellNested ts) (hb : b = renderCompact ts) :
     compact b = some b := by
   subst hb; exact format_fixed_when_formatted compactOpts ⟨rfl, rfl⟩ ts h
+
+/-! ### the nesting limit applies to every container, empty or not -/
+
+/-- At every opening bracket of a well-nested list fewer than `maxDepth` containers are open — regardless of
+what the bracket encloses. -/
+theorem depth_le_max (pre rest : List Tok) (t : Tok) (ht : t.isOpen = true) (h : WellNested (pre ++ t :: rest)) :
+    opens pre < maxDepth + closes pre := by
+  have := accepts_depth pre [.top0] t rest ht h.2
+  simp only [List.length_cons, List.length_nil] at this
+  omega
+
+/-- **An empty container at depth max+1 is rejected**: if exactly `maxDepth` containers are open after `pre`,
+then neither `pre { } post` nor `pre [ ] post` is well nested, so no text is tokenized to it and formatting
+any text with these tokens fails (`format_eq_some`).  (reformatObject/reformatArray test the depth before the
+empty-container fast path; tied by `fmt compact` on the depth-boundary texts.) -/
+theorem empty_at_limit_rejected (pre post : List Tok) (h : opens pre = closes pre + maxDepth) :
+    ¬ WellNested (pre ++ .bo :: .eo :: post) ∧ ¬ WellNested (pre ++ .ba :: .ea :: post) ∧
+    ∀ b, tokenize b ≠ some (pre ++ .bo :: .eo :: post) ∧ tokenize b ≠ some (pre ++ .ba :: .ea :: post) := by
+  have h1 : ¬ WellNested (pre ++ .bo :: .eo :: post) := fun hw => by
+    have := depth_le_max pre (.eo :: post) .bo rfl hw; omega
+  have h2 : ¬ WellNested (pre ++ .ba :: .ea :: post) := fun hw => by
+    have := depth_le_max pre (.ea :: post) .ba rfl hw; omega
+  exact ⟨h1, h2, fun b => ⟨fun ht => h1 (tokenize_sound' b _ ht), fun ht => h2 (tokenize_sound' b _ ht)⟩⟩
+
+/-- the hypothesis is satisfiable: `maxDepth` opening brackets -/
+example : opens (List.replicate maxDepth Tok.ba) = closes (List.replicate maxDepth Tok.ba) + maxDepth := by
+  simp [opens, closes, List.countP_replicate, Tok.isOpen, Tok.isClose]
+
+/-- and one level less is accepted: `[[{}]]` with a limit of … (the grammar itself, small instance) -/
+example : WellNested [.ba, .ba, .bo, .eo, .ea, .ea] := by decide
 
 /-! ### the compact form contains no whitespace outside strings -/
 
